@@ -72,6 +72,34 @@ CHECKS = {
         "writes by the wandb service process are seen at the next event/final scan; torn writes covered by the prefix argument unless the key is split across files; litdata out of scope",
         "DESIGN.md §3 C19",
     ),
+    "C02": (
+        "model_checking",
+        "exhaustive enumeration of the preprocessing/stride/crop/refinement/batch/provider configuration grid through the real predictors with ideal networks (round-trip oracle)",
+        "Every point of the stated product grid is executed end to end through the real SingleInstancePredictor / TopDownPredictor (reader threads, size matching, scaling, padding, cropping, peak finding, coordinate back-mapping, label assembly) with networks that emit the ideal maps for the image they are actually given; every visible keypoint must come back within half an output-stride cell in original coordinates, invisible ones as NaN/0, identically for both providers and for make_labels on/off. Complete within the grid.",
+        "ideal networks are the property's premise; grid values are the bound; geometry follows the resolution rule (infeasible points counted, not failed)",
+        "DESIGN.md §3 C02",
+    ),
+    "C03": (
+        "model_checking",
+        "exhaustive enumeration of tree skeletons x edge listings x every visibility pattern x animals x scale/stride grid through the real BottomUpPredictor + PAFScorer with the ideal bottom-up network",
+        "For every rooted labelled tree (n<=3 all listings; n=4 all trees, quick one listing each / thorough all) and each configuration, a labels file whose frames enumerate all 2^n visibility patterns of one animal among 1..3 well-separated animals (plus an empty frame) is run through the real predictor; the multiset of predicted instances must equal the multiset of visible-edge-connected groups of the labelled animals within half a stride cell, nothing else returned.",
+        "ideal network premise; bounds on n, animals, grid; default scorer parameters",
+        "DESIGN.md §3 C03",
+    ),
+    "C08": (
+        "model_checking",
+        "staged exhaustive small-scope enumeration (score matrices, match sets, peaks x PAF fields) of the real grouping functions against brute-force assignment + union-find references",
+        "Stage 1 enumerates every score matrix up to 3x3 over a 5-value alphabet incl. NaN and every candidate ordering through match_candidates_sample (one-to-one, optimal vs brute force, never a NaN pair); stage 2 every accepted-match set for all trees on <=4 nodes through group_instances_sample vs union-find components; stage 3 peaks x structured PAF fields x batch layouts x scorer parameters through PAFScorer.predict, recomputed from the line scores it returns. Complete within the bounds.",
+        "'arbitrary PAF tensors' = 8 structured fields; bounds on nodes/peaks; ties enumerated",
+        "DESIGN.md §3 C08",
+    ),
+    "C15": (
+        "model_checking",
+        "exhaustive small-scope enumeration of pose pairs / matrices / frames / cost matrices against algebraic relations and brute-force matching",
+        "Every (gt, predicted) pose over a 5-value coordinate alphabet incl. NaN for <=3 nodes x stddev/scale/normalisation options through the real compute_oks (range, identity, missing-gt ignored, missing-pred = miss, monotone in distance, translation/permutation invariance); every frame with 0..3 gt x 0..3 predictions x every weak score ordering through match_instances (one-to-one, conservation); every cost matrix <=3x3 through the tracking matchers vs brute force. Complete within the bounds.",
+        "alphabet/size bounds; frames with 0 gt instances may raise (nothing to conserve)",
+        "DESIGN.md §3 C15",
+    ),
 }
 
 NOT_YET = {}
